@@ -25,7 +25,6 @@ inductive Fault where
   | dangling      -- header / value of a released or never-allocated object accessed
   | debugAssert   -- a `debug_assert!` of context.rs would fire
   | unreachable   -- `unreachable!()` / `assert!` of context.rs or arena.rs would fire
-  | outOfFuel     -- driver loop did not finish within the proved bound
   deriving DecidableEq, Repr, Inhabited
 
 inductive Event where
